@@ -105,7 +105,7 @@ theorem services_leaves : Leaves (keeps ServicesInv) where
   gate := fun _ _ _ _ _ h => h
   forget := fun _ _ h => h
   acquire := by
-    intro t c n flags h
+    intro t c n flags _ h
     unfold acquire
     repeat' split
     all_goals first
@@ -127,7 +127,7 @@ theorem services_leaves : Leaves (keeps ServicesInv) where
       (m.setSender (mint t.bus).2) [tStr] [sStr (mint t.bus).2]).bus
     refine servicesInv_of_services_eq (core_eq_iff.mp h1).2.1 ?_
     exact servicesInv_of_services_eq (b := t.bus) (mintAux_services _ _) h
-  addRule := fun _ _ _ _ h => h
+  addRule := fun _ _ _ _ _ h => h
   removeRule := fun _ _ _ _ _ h => h
   gcRules := by
     intro b c x _ h
